@@ -67,6 +67,10 @@ def gen_targeted(rng, n):
                 c["w"] += n
 
             if rnd == 0:
+                if prof == "peer_data_small_wnd" and rng.below(2):
+                    # nothing of ours on the wire yet: the peer speaks first
+                    ops.append("P")
+                    continue
                 write(rng.choice([3000, 6000, 20000, 40000]))
                 ops.append("P")
                 continue
@@ -172,10 +176,10 @@ def gen_targeted(rng, n):
                     c["peer"] = (c["peer"] + 1) % 65536
                     c["pstart"] = c.get("pstart", 0) + plen
                     return m
-                wnd = rng.choice([600, 1000, 1500, 2000, 3000, 6000])
+                wnd = rng.choice([600, 1000, 1000, 1500, 2000, 2500, 3000])
                 ack = last_sent if rng.below(3) else (snd_una - 1 + rng.range(0, max(0, inflight))) % 65536
                 if rng.below(4):
-                    ops.append(data(ack, wnd, rng.choice([529, 600, 1000, 1400, 1452])))
+                    ops.append(data(ack, wnd, rng.choice([600, 1000, 1400, 1400, 1452])))
                 else:
                     ops.append(msg(ack, wnd=wnd))
                 if rng.below(3) == 0:
@@ -183,7 +187,10 @@ def gen_targeted(rng, n):
                 ops.append("P")
                 if rng.below(2):
                     write(rng.choice([600, 5000, 20000]))
-                ops.append("P")
+                # several polls with nothing new from the peer (a write, a timer, a spurious wake-up): each one
+                # segments and sends again against the SAME advertised window
+                for _ in range(rng.range(1, 4)):
+                    ops.append("P")
                 if rng.below(4) == 0:
                     adv(rng.choice([40_000_000, 300_000_000])); ops.append("P")
             elif prof == "bulk_window":
